@@ -87,6 +87,7 @@ class Trace:
         self.sim = None
         self.model = None
         self.init_econ = None
+        self.init_trackers = []
         self.step_results = []
 
 
@@ -104,6 +105,7 @@ def run(sc: dict, manual=True, keep=True, max_steps=None, sim=None) -> Trace:
     model = sim.model
     tr.sim, tr.model = sim, model
     tr.init_econ = snap_econ(model)
+    tr.init_trackers = snap_trackers(sim)
     cur = {}
 
     def full_pre():
